@@ -150,10 +150,6 @@ Lemma resource_rows_cover_b :
   forallb (fun k => existsb (fun r => N.eqb (fst r) k) pinned_resource_rows) (base_keys ++ map snd nstype_lut) = true.
 Proof. vm_compute. reflexivity. Qed.
 
-(* every member class the topology API hands out is routed by both collectors, except the known unrouted one *)
-Lemma dispatch_classes_partial_b : forallb (fun c => routed c || smem_s c known_unrouted) produced_classes = true.
+(* every member class the topology API hands out (regenerated list) is routed by both collectors *)
+Lemma dispatch_classes_b : forallb routed produced_classes = true.
 Proof. vm_compute. reflexivity. Qed.
-
-(* the full statement is false of the current code: witness *)
-Lemma dispatch_classes_refuted_w : exists c, In c produced_classes /\ routed c = false.
-Proof. exists "PortMirrorService"%string. vm_compute. split; [tauto | reflexivity]. Qed.
